@@ -21,21 +21,25 @@ Proof. exact buf_refines. Qed.
 Print Assumptions C07_buf_refines.
 
 (* Pipeline, all histories: for every sequence of incoming frames (with the clock reading at
-   which each is processed), the frames handed to handleMessage by decryptMessage are exactly
-   those accepted by the specification: conditions `conds` and the replay rule on the set of
-   previously accepted ids. *)
+   which each is processed, before 2038 so that ids stay below the int64 maximum), the frames
+   handed to handleMessage by decryptMessage are exactly those accepted by the specification:
+   conditions `conds` and the replay rule on the set of previously accepted ids.  Histories are
+   in Consume order: readLoop handles each frame in its own goroutine and MessageIDBuf.Consume
+   (under its mutex) is the only step on shared state, so every concurrent execution is one of
+   these histories.  Not modelled: the ids of messages INSIDE an accepted container are not
+   re-checked by the code (outside this property). *)
 Theorem C07_pipeline : forall N session h,
-  (0 < N)%nat -> Forall (fun nm => d_id (snd nm) < c_minID_init) h ->
+  (0 < N)%nat -> Forall (fun nm => fst nm < clock_bound) h ->
   accept_run session (buf_init N) h = spec_accept_run N session [] h.
 Proof. exact pipeline_refines. Qed.
 Print Assumptions C07_pipeline.
 
 (* ... in particular for the window size used by mtproto.New (generated constant). *)
 Theorem C07_pipeline_call_site : forall session h,
-  Forall (fun nm => d_id (snd nm) < c_minID_init) h ->
+  Forall (fun nm => fst nm < clock_bound) h ->
   accept_run session (buf_init (Z.to_nat c_msgIDBufSize)) h =
   spec_accept_run (Z.to_nat c_msgIDBufSize) session [] h.
-Proof. intros. apply pipeline_refines; [vm_compute; repeat constructor | assumption]. Qed.
+Proof. exact pipeline_refines_call_site. Qed.
 Print Assumptions C07_pipeline_call_site.
 
 (* Pipeline, one message: the specification accepts  <=>  the message decrypts under the
@@ -50,16 +54,17 @@ Theorem C07_accept_iff : forall N session S now m,
 Proof. exact spec_accept_iff. Qed.
 Print Assumptions C07_accept_iff.
 
-(* The time window is stated on the library's own decoding time.Unix(id>>32, int32(id)).
-   Its distance from the specification's reading (id / 2^32 seconds) is bounded for every
-   id: between -2.65 s and +1.65 s (scaled by 2^32 to stay in Z). *)
-Theorem C07_time_decoding_distance : forall id,
-  let d := id_time_lib id * 4294967296 - id_time_spec_scaled id in
-  - 2650000000 * 4294967296 < d < 1650000000 * 4294967296.
-Proof. exact id_time_lib_vs_spec. Qed.
-Print Assumptions C07_time_decoding_distance.
+(* The creation time in `conds` is MessageID.Time() (both parts regenerated from the source).
+   It IS the specification's reading of the id -- id / 2^32 seconds -- rounded down to a
+   nanosecond, for every id (scaled by 2^32 to stay in Z).
+   (Before fix ad4102cfc the low word was read as int32 nanoseconds, off by -2.65 .. +1.65 s:
+   a message 301.5 s old, (T-302)<<32 | 0x7FFFFFFD, was accepted.) *)
+Theorem C07_time_decoding_is_spec : forall id,
+  id_time_lib id * 4294967296 <= id_time_spec_scaled id < (id_time_lib id + 1) * 4294967296.
+Proof. exact id_time_lib_is_spec. Qed.
+Print Assumptions C07_time_decoding_is_spec.
 
-(* regression witnesses of the two repaired defects, on the regenerated constants *)
+(* regression witnesses of the repaired defects, on the regenerated constants / functions *)
 Theorem C07_replay_of_old_id_rejected : consume_run (buf_init 100) [100; 200; 100] = [true; true; false].
 Proof. exact replay_rejected. Qed.
 Print Assumptions C07_replay_of_old_id_rejected.
@@ -68,12 +73,17 @@ Theorem C07_padding_below_12_rejected :
 Proof. exact padding_below_12_rejected. Qed.
 Print Assumptions C07_padding_below_12_rejected.
 
+Theorem C07_stale_message_rejected :   (* T = 1704067200 s, id 301.5 s old by id / 2^32 *)
+  check_message_id (1704067200 * 1000000000) ((1704067200 - 302) * 4294967296 + 2147483645) = false.
+Proof. exact stale_rejected. Qed.
+Print Assumptions C07_stale_message_rejected.
+
 (* non-vacuity: the hypotheses are satisfiable by histories with accepted and rejected messages *)
 Example C07_buf_nonvacuous :
   exists ids, Forall (fun id => 0 < id < c_minID_init) ids /\ consume_run (buf_init 2) ids = [true; true; false; true; false].
 Proof. exists [5; 9; 5; 7; 3]. split; [repeat constructor | reflexivity]. Qed.
 Example C07_pipeline_nonvacuous :
-  exists h, Forall (fun nm => d_id (snd nm) < c_minID_init) h /\
+  exists h, Forall (fun nm => fst nm < clock_bound) h /\
             accept_run 7 (buf_init 100) h = [true; false; false].
 Proof.
   exists [ (1000000000000, {| d_auth := true; d_session := 7; d_id := 4294967296001; d_len := 4; d_total := 16 |});
